@@ -91,7 +91,16 @@ def stream(ctx, drv):
             continue
         if not tree.body:
             continue
-        lines = fe.flat_lines(fa.flatten_ast(tree))
+        try:
+            lines = fe.flat_lines(fa.flatten_ast(tree))
+        except RecursionError:
+            continue
+        except Exception as exc:
+            ctx.dist(f"tree: flatten_ast raised {type(exc).__name__}")
+            if not any(v.get("replay", {}).get("kind") == "tree-crash" for v in ctx.violations):
+                ctx.violations.append({"what": f"flatten_ast raised {type(exc).__name__}: {exc} on a parsable program (no span at all)",
+                                       "signature": None, "replay": {"kind": "tree-crash", "source": src}})
+            continue
         n, m, b = compare("tree:whole_span-matcher-programs", lines, hash(src))
         info = drv.call("c01.tree_span", tree=fe.export(tree))
         ctx.dist("tree: treeOk2 " + ("holds" if info["wf2"] else "FAILS"))
